@@ -588,6 +588,11 @@ func robustStream(r *Run) {
 		}
 	}
 
+	// (0b) Go values the codec cannot spell (implementation only)
+	if r.Shard == 0 {
+		robustGoShapesFamily(r)
+	}
+
 	// (1) boundary matrix
 	U := robustUniverse(r.Tier)
 	r.Stats.Notes["universe"] = fmt.Sprint(len(U))
